@@ -37,6 +37,8 @@ func init() {
 }
 
 func checkC06(c *Ctx) {
+	checkFilterEquality(c)    // an equal-looking filter is skipped: equality must be sound
+	checkNotRunningErrors(c) // Refilter goes through the loop, in call order
 	checkRootForwarders(c)
 	checkFilterSubscriptionTable(c)
 	checkFilterSubscriptionFlows(c)
@@ -115,6 +117,11 @@ func init() {
 }
 
 func checkC16(c *Ctx) {
+	for _, r := range typedRelsQuick(c) {
+		checkTypedRobustness(c, r)
+		checkHandlerBuilderCopy(c, r)
+	}
+	checkHandlerBuilderCopy(c, "")
 	if c.Tier == "thorough" {
 		checkCallersVTA(c)
 	}
@@ -388,6 +395,7 @@ func checkC02(c *Ctx) {
 }
 
 func checkC07(c *Ctx) {
+	checkNotRunningErrors(c)
 	checkFilterSubscriptionTable(c)
 	checkFilterSubscriptionFlows(c)
 	checkFSubDistribute(c)
@@ -400,6 +408,8 @@ func checkC07(c *Ctx) {
 }
 
 func checkC08(c *Ctx) {
+	checkNotRunningErrors(c)
+	checkFilterEquality(c)
 	checkCtorChannelCapacities(c)
 	checkControllerTable(c)
 	checkFilterSubscriptionTable(c)
@@ -413,6 +423,12 @@ func checkC08(c *Ctx) {
 }
 
 func checkC14(c *Ctx) {
+	checkFilterSubscriptionTable(c) // "the whole subtree shuts down": every consumer leaves its loop when its parent's events close
+	checkPublisherTable(c)
+	checkSubscriptionTable(c)
+	checkMonitorTable(c)
+	checkListerTable(c)
+	checkStopWiring(c)
 	checkControllerTable(c)
 	checkListHelpers(c)
 	checkErrPropagation(c, "T-SHAPE(list-helpers)", "", "extractList", "meta.ExtractList")
@@ -428,6 +444,8 @@ func checkC14(c *Ctx) {
 }
 
 func checkC15(c *Ctx) {
+	checkAcceptPurity(c)            // filters are shared by the cache goroutines of all subscriptions: Accept must not write
+	checkFilterSubscriptionTable(c) // a refilter is ONE cache operation (never a half-applied refilter)
 	if c.Tier == "thorough" {
 		checkCallersVTA(c)
 	}
